@@ -10,6 +10,13 @@ from proto import run_lines
 from spellings import hsl_string
 
 MATCHERS = {}
+
+
+def regen_leaves():
+    """CmGen/Leaves.lean: the numeric functions of the source as they read now (the `source_*` theorems of
+    CmProps/C13tie.lean identify them with the model)"""
+    from translate import leaves
+    leaves.generate()
 LABEL = {"AAA": "Very Readable", "AA": "Readable", "FAIL": "Not Readable"}
 ALPHAS = ["0", "1", "0.0", "1.0", "0.5", "0.25", "0.75", "0.000001", "0.999999", "0.001", "0.999", "0.1", "0.9", ".5", ".25", ".9", "1.", "0."]
 
@@ -22,7 +29,9 @@ def css_channels(s):
 
 
 def check(run):
-    run.proof = proof_status("C13")
+    run.proof = proof_status("C13", regenerate=regen_leaves)
+    from translate import leaves as _leaves
+    run.extra["source_translation"] = _leaves.summary()
     q = run.quick()
     repo_import()
     from cm_colors import ColorPair
